@@ -279,6 +279,18 @@ class PlainText(NativeCase):
                     self.ob('spelling:raises-nothing', False, inputs=dict(text=text, push0=p0), info=repr(e))
                     continue
                 self.ob('constant-keeps-its-numeric-value', got == val, inputs=dict(text=text, push0=p0), info="parsed as %d" % got)
+            # every spelling of one constant is the same item (so that rendering and re-reading cannot turn one into another)
+            for group in (["PUSH1 0x00", "PUSH1 0x0", "PUSH1 0", "PUSH 0", "PUSH0", "PUSH2 0x0000", "PUSH32 0x" + "0" * 64],
+                          ["PUSH1 0x10", "PUSH1 16", "PUSH 10", "PUSH2 0x0010", "PUSH1 0X10"], ["PUSH2 0x0100", "PUSH2 256", "PUSH 100", "PUSH3 0x000100"]):
+                seen = {}
+                for text in group:
+                    try:
+                        it = parser_asm.parse_blocks_from_plain_instructions(text + " POP")[0].instructions[0]
+                        seen[text] = (it.disasm, it.value)
+                    except BaseException as e:
+                        seen[text] = repr(e)
+                self.ob('every spelling of a constant gives the same item', len(set(seen.values())) == 1, inputs=dict(spellings=group, push0=p0),
+                        info=seen)
             blocks = [pipeline.plain_text(corpus.tokens(b)) for b in corpus.BASE_BLOCKS] + \
                      ["PUSH [tag] 5 JUMP", "PUSH1 0x01 PUSH [tag] 2 JUMPI", "PUSHSIZE PUSHDEPLOYADDRESS ADD", "PUSH data 0a POP",
                       "PUSHIMMUTABLE 12 PUSH1 0x00 ASSIGNIMMUTABLE 12", "PUSH #[$] 00 PUSH [$] 00 ADD", "PUSHLIB lib1 PUSHLIB lib2 PUSHLIB lib1 ADD ADD",
